@@ -347,7 +347,15 @@ pub fn run_batch<F: Fn(usize, &mut Vec<u8>)>(n: usize, cpu_secs: u64, cpu_alone_
 
 /// Like `run_batch`; `on_death(i)` runs in the parent immediately after case `i` killed its child
 /// (before any later case runs), e.g. to inspect MAP_SHARED memory the dying case may have touched.
+/// CPU-time limits are multiplied by MON_CPU_SCALE (set by the driver for slow variants such as
+/// valgrind, where everything runs 20-50x slower; a limit hit there must not look like divergence).
+pub fn cpu_scale() -> u64 {
+    std::env::var("MON_CPU_SCALE").ok().and_then(|s| s.parse().ok()).unwrap_or(1)
+}
+
 pub fn run_batch_ex<F: Fn(usize, &mut Vec<u8>)>(n: usize, cpu_secs: u64, cpu_alone_secs: u64, f: F, on_death: &mut dyn FnMut(usize) -> Vec<u8>) -> Vec<CaseEnd> {
+    let cpu_secs = cpu_secs * cpu_scale();
+    let cpu_alone_secs = cpu_alone_secs * cpu_scale();
     const AREA: usize = if cfg!(miri) { 1 << 18 } else { 16 << 20 };
     let mut ends: Vec<Option<CaseEnd>> = (0..n).map(|_| None).collect();
     let mut start = 0usize;
